@@ -268,3 +268,42 @@ def run_busy(ctx, info):
     if stats["refused_busy"] == 0:
         ctx.notes.append("two-stores-busy: no dequeue was refused as busy in this run (the lock-holding call no longer reads the clock inside its transaction?)")
     return {"two_stores_busy": stats}
+
+
+def run_dequeue_stress(ctx, info):
+    """two processes poll one route concurrently (batch 2) while 1000 messages are ready and nothing else happens: a call that returns fewer
+    than `batch` items although a call that STARTED AFTER IT RETURNED was still handed messages was starved (C05: a dequeue returns
+    min(batch, ready))"""
+    trials = 6 if ctx.tier == "quick" else 40
+    rc, out, err = C.harness_run(info["hbin"], ["two-stores-dequeue-stress"], {"dir": os.path.join(ctx.scratch, "twostress"), "trials": trials, "messages": 1000, "batch": 2},
+                                 timeout=900)
+    if rc != 0:
+        raise RuntimeError("two-stores-dequeue-stress failed: " + err[-1500:])
+    stats = {"trials": 0, "calls": 0, "short_calls": 0, "both_stores_served": 0}
+    for t in json.loads(out)["trials"]:
+        if t.get("err"):
+            raise RuntimeError("two-stores-dequeue-stress: " + t["err"])
+        calls = sorted(t["calls"], key=lambda c: c["start"])
+        stats["trials"] += 1
+        stats["calls"] += len(calls)
+        if all(any(c["store"] == s and c["n"] > 0 for c in calls) for s in "AB"):
+            stats["both_stores_served"] += 1
+        errs = [c for c in calls if c.get("err")]
+        short = [c for c in calls if c["n"] < 2 and not c.get("err")]
+        stats["short_calls"] += len(short)
+        last_served_start = max([c["start"] for c in calls if c["n"] > 0] or [0])
+        starved = [c for c in short if c["end"] < last_served_start]
+        problems = []
+        if starved:
+            problems.append("%d dequeue call(s) returned fewer than 2 items although calls that started after they had returned were still handed messages "
+                            "(first: store %s returned %d item(s) at logical time %d..%d; messages were handed out until %d)" % (
+                                len(starved), starved[0]["store"], starved[0]["n"], starved[0]["start"], starved[0]["end"], last_served_start))
+        if t["leased"] != 1000 or t["distinct"] != 1000:
+            problems.append("%d hand-outs of %d distinct messages for 1000 ready messages" % (t["leased"], t["distinct"]))
+        if errs:
+            problems.append("dequeue errors: %s" % [c["err"] for c in errs][:3])
+        if problems:
+            C.report(ctx, "two-stores-dequeue-stress:%s" % ("starved" if starved else "count"), "; ".join(problems),
+                     {"kind": "schedule", "case": {"stores": 2, "messages": 1000, "batch": 2}, "observed": {"calls": len(calls), "starved_calls": starved[:10]},
+                      "how_to_replay": "the interleaving is chosen by the scheduler; the run is repeated (%d trials)" % trials})
+    return {"two_stores_dequeue_stress": stats}
